@@ -86,6 +86,12 @@ def operand(ctx, fi):
   ctx.require(keep is not None, 'transpose_note_sequence: keep/delete branch not found')
   parts = keep.test.values if isinstance(keep.test, ast.BoolOp) and isinstance(keep.test.op, ast.Or) else [keep.test]
   rng = [p for p in parts if isinstance(p, ast.Compare) and len(p.ops) == 2]
+  # the same range written as a conjunction  lo <= x and x <= hi  is read as the chain  lo <= x <= hi
+  for p in parts:
+    if isinstance(p, ast.BoolOp) and isinstance(p.op, ast.And) and len(p.values) == 2 and all(isinstance(v_, ast.Compare) and len(v_.ops) == 1 for v_ in p.values):
+      a_, b_ = p.values
+      if norm_text(a_.comparators[0]) == norm_text(b_.left):
+        rng.append(ast.Compare(left=a_.left, ops=[a_.ops[0], b_.ops[0]], comparators=[a_.comparators[0], b_.comparators[0]]))
   ok = False
   if len(rng) == 1:
     c = rng[0]
